@@ -86,7 +86,16 @@ impl Q32E2 {
 
     #[inline]
     pub fn neg(&mut self) {
-        self.0 = self.0.wrapping_neg();
+        // two's complement of the whole 512-bit accumulator
+        let (l7, c) = (!self.7).overflowing_add(1);
+        let (l6, c) = (!self.6).overflowing_add(c as u64);
+        let (l5, c) = (!self.5).overflowing_add(c as u64);
+        let (l4, c) = (!self.4).overflowing_add(c as u64);
+        let (l3, c) = (!self.3).overflowing_add(c as u64);
+        let (l2, c) = (!self.2).overflowing_add(c as u64);
+        let (l1, c) = (!self.1).overflowing_add(c as u64);
+        let l0 = (!self.0).wrapping_add(c as i64);
+        *self = Self(l0, l1, l2, l3, l4, l5, l6, l7);
     }
 
     #[inline]
